@@ -68,7 +68,8 @@ class C01(framework.PropertyCheck):
             aux = {'header': [['scope', 'module', 'other']] + [['var', 'wire', 3, i, f'o{k}', None] for k, i in enumerate(ids)] + [['upscope']],
                    'dump': [['time', 0]] + [['vector', '101', i] for i in ids] + [['time', 7]] + [['vector', '010', i] for i in ids]}
             if case['history'] % 2:
-                steps = [('loadvcd', 'zz', gen_trace.render(aux, random.Random(case['history']))), steps[0], ('unload', 'zz'), steps[1]]
+                steps = [('loadvcd', 'zz', gen_trace.render(aux, random.Random(case['history']))), ('eval', 'eorg', '(list other.o0 MAX-INDEX)'),
+                         steps[0], ('unload', 'zz'), steps[1]]
             else:
                 # the other file was loaded under the very same id, read, and unloaded
                 steps = [('loadvcd', 't0', gen_trace.render(aux, random.Random(case['history']))), ('eval', 'eorg', '(list other.o0 MAX-INDEX)'),
@@ -83,6 +84,10 @@ class C01(framework.PropertyCheck):
             steps.append(('eval', 'eorg', q))
             steps.append(('eval', 'eorg', qrel))
             steps.append(('eval', 'eorg', qback))
+            if _i < 2:
+                # a scan over the whole file that reads the signals, then the direct reads once more: still this index's values
+                steps.append(('eval', 'eorg', '(list (length (find (do ' + ' '.join(f'(get {qs(n)})' for n in names[:4]) + ' #t))) (count #t))'))
+                steps.append(('eval', 'eorg', q))
             steps.append(('eval', 'eorg', '(step)'))
         return steps
 
@@ -91,9 +96,14 @@ class C01(framework.PropertyCheck):
         names = den['signals']
         n = len(den['timestamps'])
         if case.get('history') is not None:
-            if len(iobs) < 3 or iobs[0] != ('ok',) or iobs[2] != ('ok',):
-                return {'what': 'loading / unloading the other file failed', 'obs': iobs[:3]}
-            iobs = (iobs[1:2] + iobs[3:]) if case['history'] % 2 else iobs[3:]
+            if case['history'] % 2:
+                if len(iobs) < 4 or iobs[0] != ('ok',) or iobs[3] != ('ok',):
+                    return {'what': 'loading / unloading the other file failed', 'obs': iobs[:4]}
+                iobs = iobs[2:3] + iobs[4:]
+            else:
+                if len(iobs) < 3 or iobs[0] != ('ok',) or iobs[2] != ('ok',):
+                    return {'what': 'loading / unloading the other file failed', 'obs': iobs[:3]}
+                iobs = iobs[3:]
         if not iobs or iobs[0] != ('ok',):
             return {'what': 'well-formed file rejected', 'obs': iobs[:1]}
         want0 = ('L', True, (('L', False, tuple(('S', s) for s in names)), ('L', False, tuple(('S', s) for s in den['scopes'])),
@@ -127,6 +137,12 @@ class C01(framework.PropertyCheck):
                 return {'what': 'a relative read back to index 0 / to the index before does not report what the file gives there', 'index': i,
                         'got': iobs[k] if k < len(iobs) else None, 'want': wantback}
             k += 1
+            if i < 2:
+                wantscan = ('L', True, (('I', n - i), ('I', n - i)))
+                if k + 1 >= len(iobs) or iobs[k][0] != 'ok' or iobs[k][1] != wantscan or iobs[k + 1][0] != 'ok' or iobs[k + 1][1] != want:
+                    return {'what': 'after a scan that read the signals, a direct read does not report this index\'s values (or the scan is wrong)', 'index': i,
+                            'scan': iobs[k] if k < len(iobs) else None, 'read': iobs[k + 1] if k + 1 < len(iobs) else None, 'want': [wantscan, want]}
+                k += 2
             want_step = ('B', i + 1 < n)
             if k >= len(iobs) or iobs[k][0] != 'ok' or iobs[k][1] != want_step:
                 return {'what': '(step) result', 'index': i, 'got': iobs[k] if k < len(iobs) else None}
